@@ -98,7 +98,7 @@ pub fn run_c19(r: &Runner) {
     let g = GenSpec { kinds: &K, profile: Profile::DEFAULT, generous_cap: false, cfg_mask: 0x7f, cfg_entry_only: false };
     r.par_random(
         "G1 messages × all entry points × configs × capacities, allocator armed around the call",
-        r.amount(2_000_000, 40_000_000),
+        r.amount(6_000_000, 80_000_000),
         160,
         |u: &mut Choice| g1_case(u, "alloc", &g),
         &|ctx, l, rec| check_c19(r, ctx, l, rec),
@@ -106,7 +106,7 @@ pub fn run_c19(r: &Runner) {
     let g2 = GenSpec { kinds: &RR_KINDS, profile: Profile::LENIENT, generous_cap: false, cfg_mask: 0x7f, cfg_entry_only: true };
     r.par_random(
         "G1 lenient-weighted messages (rare branches: folds, ignored lines, UTF-8 errors)",
-        r.amount(1_000_000, 20_000_000),
+        r.amount(3_000_000, 40_000_000),
         160,
         |u: &mut Choice| g1_case(u, "alloc", &g2),
         &|ctx, l, rec| check_c19(r, ctx, l, rec),
@@ -230,7 +230,7 @@ pub fn run_c20(r: &Runner) {
         let g = GenSpec { kinds: &K, profile: Profile { big: true, ..Profile::LENIENT }, generous_cap: true, cfg_mask: 0x7f, cfg_entry_only: false };
         r.par_random(
             &format!("G1 lenient-weighted messages (occasionally 64 KiB fields), backend {}", backend_name(be)),
-            r.amount(300_000, 6_000_000),
+            r.amount(1_000_000, 15_000_000),
             170,
             |u: &mut Choice| {
                 let mut rec = g1_case(u, "linear", &g);
